@@ -8,7 +8,8 @@ class C07(vlib.Spec):
     model_vo = ["theories/Lattice/Morph.vo"]
     props_vo = "theories/Props/C07.vo"
     theorems = ["C07_distributes", "C07_respects_eq", "C07_keyed_parametric", "C07_keyed_towers",
-                "C07_cartesian_is_product", "C07_keyed_pair_refuted", "C07_holds_b_sound"]
+                "C07_cartesian_is_product", "C07_keyed_pair_refuted", "C07_keyed_fixed_parametric",
+                "C07_fixed_all_shapes", "C07_holds_b_sound"]
     crate, group, binary = "h_morph", "light", "h_morph"
     imports = "From HV Require Import Lattice.Univ Lattice.Morph."
     trusted_base = ["coqc 8.16.1 kernel (vm_compute used for case evaluation only)",
